@@ -219,3 +219,51 @@ def add_slack(rng, chain, coin, share=0.3):
                 b.slack = struct.pack("<I", c.magic) + struct.pack("<I", len(ob)) + ob
             n += 1
     return n
+
+
+def vary_times(rng, chain, keep_first=False, pattern=None):
+    """Header timestamps as real chains have them: not monotonic (a block only has to be later than the median of the previous eleven),
+    equal, dated in the future relative to the moment the tool runs, or at the edges of the 32-bit range. Never exactly 0. The chain is
+    re-linked afterwards (prev hashes follow the new block hashes; txids do not change). Returns the pattern used."""
+    import time as _time
+    from .chain import link
+    blocks = [b for _, b in chain]
+    if len(blocks) < 2:
+        return "none"
+    pattern = pattern or rng.choice(["backsteps", "last-before-first", "future", "edges", "constant"])
+    now = int(_time.time())
+    first = 1 if keep_first else 0
+    t = blocks[0].time if keep_first else rng.choice([1231006505, 1500000000, now - 86400 * 30])
+    for i, b in enumerate(blocks):
+        if i < first:
+            continue
+        if pattern == "backsteps":
+            t = max(1, t + rng.choice([600, 1, 0, -1, -600, -7199, 1200, 30]))
+        elif pattern == "last-before-first":
+            t = t + 600 if i < len(blocks) - 1 else max(1, blocks[first].time - rng.choice([1, 2999, 86400]))
+        elif pattern == "future":
+            t = rng.choice([now + 7190, now + 7300, now + 86400 * 400, t + 600, t + 600])
+        elif pattern == "edges":
+            t = rng.choice([1, 2**31 - 1, 2**31, 2**32 - 1, 2**32 - 2, t + 600, 1231006505])
+        b.time = t if pattern != "constant" else blocks[first].time if i > first else t
+    link(blocks[first:] if keep_first else blocks, prev=blocks[0].hash if keep_first else blocks[0].prev)
+    return pattern
+
+
+def add_duplicate_txs(rng, chain, coin, payloads=(b"hello from an early miner", b"again")):
+    """Identical transactions in different blocks (as on mainnet: the coinbases of blocks 91722/91880 and 91812/91842). Appends blocks
+    to the chain: a coinbase carrying an OP_RETURN output and a normal output, the byte-identical coinbase again in the next block and
+    once more a few blocks later, and an identical non-coinbase transaction in two blocks. Returns the extended chain (re-linked)."""
+    from .chain import Block, Tx, TxIn, TxOut, ZERO32, link
+    blocks = [b for _, b in chain]
+    h0 = chain[0][0]
+    t = blocks[-1].time
+    cbtx = Tx(1, [TxIn(ZERO32, 0xFFFFFFFF, b"\x03dup" + rbytes(rng, 4), 0xFFFFFFFF)],
+              [TxOut(50 * 10**8, std_script(rng, coin, "p2pkh")), TxOut(0, b"\x6a" + push(payloads[0]))], 0)
+    plain = Tx(2, [TxIn(rbytes(rng, 32), 1, b"\x51", 0xFFFFFFFE)], [TxOut(0, b"\x6a" + push(payloads[1])), TxOut(7, std_script(rng, coin, "p2pkh"))], 0)
+    other = Tx(1, [TxIn(ZERO32, 0xFFFFFFFF, b"\x03oth" + rbytes(rng, 4), 0xFFFFFFFF)], [TxOut(50 * 10**8, std_script(rng, coin, "p2pkh"))], 0)
+    for txs in ([cbtx], [cbtx], [other, plain], [cbtx, plain], [other], [cbtx]):
+        t += 600
+        blocks.append(Block(1, ZERO32, t, 0x1D00FFFF, rng.getrandbits(32), list(txs)))
+    link(blocks, prev=blocks[0].prev)
+    return [(h0 + i, b) for i, b in enumerate(blocks)]
